@@ -332,7 +332,19 @@ def save_replay(ctx, prop, scen_group, events, note=''):
         f.write('property %s\nreplay: ./check %s --replay %s\n%s\n' % (prop, prop, d, note))
     return d
 
-def confirm_and_report(ctx, scen_by_id, violations, props, observer='TraceObs', rerun=None):
+def shard_order(traces):
+    """scenario id -> ids that ran before it in the same harness process (one trace file per process)"""
+    pred = {}
+    for tp in traces:
+        seen = []
+        for l in open(tp):
+            if '"event":"Begin"' in l or '"event": "Begin"' in l:
+                sid = json.loads(l)['scen']
+                pred[sid] = list(seen)
+                seen.append(sid)
+    return pred
+
+def confirm_and_report(ctx, scen_by_id, violations, props, observer='TraceObs', rerun=None, history=None):
     """violations: list of (prop, scen id). Re-executes each violating scenario (with its twin) alone; a
     violation that reproduces is reported (VIOLATION or KNOWN-FINDING); one that does not is inconclusive."""
     known = [k for k in load_known() if k.get('status') == 'known']
@@ -367,6 +379,20 @@ def confirm_and_report(ctx, scen_by_id, violations, props, observer='TraceObs', 
             again = observe(ctx, traces, props, module=observer)
             if (prop, sid) in again:
                 break
+        if (prop, sid) not in again and history and history.get(sid) and rerun is None:
+            # the behaviour may depend on what the same PROCESS did before (package-level state that survives between requests):
+            # re-execute with the scenarios that preceded it in its process, the nearest ones first
+            preds = [scen_by_id[x] for x in history[sid] if x in scen_by_id]
+            for k in (3, 12, len(preds)):
+                grp = preds[-k:] + group
+                traces = run_harness(ctx, grp, 'confirm-hist-%d-%d' % (len(seen), k), shards=1)
+                again = observe(ctx, traces, props, module=observer)
+                if (prop, sid) in again:
+                    group = grp
+                    ctx.notes.append('violation of %s on %s reproduces only after the %d scenario(s) that preceded it in the same process (history-dependent)' % (prop, sid, len(grp) - 1))
+                    break
+                if k >= len(preds):
+                    break
         if (prop, sid) not in again:
             # not reproduced in 3 re-executions: this one is inconclusive; go on with the other violating scenarios
             ctx.notes.append('violation of %s on %s did not reproduce on re-execution' % (prop, sid))
